@@ -8,6 +8,7 @@ package main
 import (
 	"fmt"
 	"os"
+	"sort"
 	"strings"
 	"time"
 
@@ -163,9 +164,182 @@ func wrapCond(s script) string {
 	return "function(){ " + s.Body + " return " + s.Expr + " }()"
 }
 
+// evalCond runs one event against a rule with the given condition and action; returns the
+// values, the number of non-complete nodes and the failure ProcessEvent reported.
+func evalCond(kind string, control *core.Control, cond interface{}, action map[string]interface{}, facts []core.Map) (string, int, string) {
+	loc, err := drv.NewLoc("J", kind, drv.MustMem())
+	if err != nil {
+		return "", 0, "cannot build location"
+	}
+	if control != nil {
+		loc.SetControl(control)
+	}
+	for i, f := range facts {
+		loc.AddFact(drv.Ctx(), fmt.Sprintf("f%d", i), f)
+	}
+	rule := core.Map{"when": map[string]interface{}{"pattern": map[string]interface{}{"go": "?g"}}, "action": action}
+	if cond != nil {
+		rule["condition"] = cond
+	}
+	if _, err := loc.AddRule(drv.Ctx(), "jr", rule); err != nil {
+		return "", 0, "AddRule: " + err.Error()
+	}
+	fr, c := loc.ProcessEvent(drv.Ctx(), core.Map{"go": "now"})
+	failed := 0
+	var vals []string
+	if fr != nil {
+		for _, v := range fr.Values {
+			vals = append(vals, fmt.Sprint(v))
+		}
+		for _, er := range fr.Children {
+			if er.Disposition != nil && er.Disposition != core.Complete {
+				failed++
+			}
+			for _, erc := range er.Children {
+				if erc.Disposition != nil && erc.Disposition != core.Complete {
+					failed++
+				}
+				for _, era := range erc.Children {
+					if era.Disposition != nil && era.Disposition != core.Complete {
+						failed++
+					}
+				}
+			}
+		}
+	}
+	sort.Strings(vals)
+	msg := ""
+	if c != nil {
+		msg = c.Msg
+	}
+	return strings.Join(vals, ","), failed, msg
+}
+
+// siblingScopes: a script sees exactly its bindings.  What one disjunct's script returns
+// (an object whose properties become bindings of ITS results) is not a variable of a sibling
+// disjunct, of a later evaluation of the same condition, or of the action run for another result.
+func siblingScopes(r *rep.Report) {
+	code := func(c string) map[string]interface{} { return map[string]interface{}{"code": c} }
+	act := map[string]interface{}{"code": "(typeof extra == 'undefined') ? 'plain' : 'extra=' + extra"}
+	type tc struct {
+		name         string
+		cond         interface{}
+		wantVals     string
+		wantFailures bool
+	}
+	cases := []tc{
+		{"or: a later disjunct uses a variable that an earlier disjunct's script returned", map[string]interface{}{"or": []interface{}{code("({extra:1})"), code("extra == 1")}}, "", true},
+		{"or: a later disjunct only probes for the variable", map[string]interface{}{"or": []interface{}{code("({extra:1})"), code("typeof extra == 'undefined'")}}, "extra=1,plain", false},
+		{"or: two results, the action of the second must not see the first one's extra binding", map[string]interface{}{"or": []interface{}{code("({extra:7})"), code("true")}}, "extra=7,plain", false},
+		{"and: a later conjunct does see what an earlier conjunct returned", map[string]interface{}{"and": []interface{}{code("({extra:2})"), code("extra == 2")}}, "extra=2", false},
+		{"not: the negated script's bindings do not leak to the action", map[string]interface{}{"not": code("({extra:3}) && false")}, "plain", false},
+	}
+	for ci, c := range cases {
+		for _, kind := range drv.Kinds {
+			vals, failed, msg := evalCond(kind, nil, c.cond, act, nil)
+			r.Case(true, fmt.Sprint("sibling-scopes", ci, kind))
+			r.Count("sibling_scope_cases", 1)
+			wit := rep.J{"case": c.name, "condition": c.cond, "state": kind, "values": vals, "non_complete_nodes": failed, "failure": msg, "want_values": c.wantVals, "want_failure": c.wantFailures}
+			if c.wantFailures {
+				if failed == 0 && msg == "" {
+					r.Violate("", "a condition script that uses a variable it was not given (a sibling disjunct's returned binding) was reported as success", wit)
+				} else if vals != "" {
+					r.Violate("", "actions ran although the condition failed", wit)
+				}
+				continue
+			}
+			if msg != "" || failed > 0 {
+				r.Violate("", "a finishing condition script failed: "+msg, wit)
+			} else if vals != c.wantVals {
+				r.Violate("", "a script did not see exactly its bindings (a returned binding of another result or disjunct is visible, or its own is missing)", wit)
+			}
+		}
+	}
+}
+
+// libraryScripts: the same script text with different `libraries` is a different program.
+// Missing library function => ReferenceError on the node; a library that does not compile =>
+// error on the node; another library => its own value; in any order, in conditions, actions
+// and RunJavascript.
+func libraryScripts(r *rep.Report) {
+	ctl := core.DefaultControl()
+	ctl.Verbosity = core.NOTHING
+	ctl.Libraries = map[string]string{"twice": "function scale(x) { return 2 * x; }", "thrice": "function scale(x) { return 3 * x; }", "broken": "function scale(x) { return ("}
+	type variant struct {
+		libs []interface{}
+		want string // "" = must fail
+	}
+	variants := []variant{{[]interface{}{"twice"}, "42"}, {nil, ""}, {[]interface{}{"thrice"}, "63"}, {[]interface{}{"broken"}, ""}, {[]interface{}{"twice"}, "42"}, {nil, ""}}
+	for order := 0; order < 3; order++ {
+		vs := append([]variant{}, variants...)
+		if order == 1 {
+			for i, j := 0, len(vs)-1; i < j; i, j = i+1, j-1 {
+				vs[i], vs[j] = vs[j], vs[i]
+			}
+		} else if order == 2 {
+			vs = append(vs[3:], vs[:3]...)
+		}
+		for _, kind := range drv.Kinds {
+			for _, pos := range []string{"action", "condition", "run"} {
+				for vi, v := range vs {
+					r.Case(true, fmt.Sprint("libraries", order, kind, pos, vi))
+					r.Count("library_script_cases", 1)
+					var got, failure string
+					failedNodes := 0
+					switch pos {
+					case "action":
+						a := map[string]interface{}{"code": "scale(21)"}
+						if v.libs != nil {
+							a["opts"] = map[string]interface{}{"libraries": v.libs}
+						}
+						got, failedNodes, failure = evalCond(kind, ctl, nil, a, nil)
+					case "condition":
+						cq := map[string]interface{}{"code": "scale(21) > 0"}
+						if v.libs != nil {
+							cq["libraries"] = v.libs
+						}
+						got, failedNodes, failure = evalCond(kind, ctl, cq, map[string]interface{}{"code": "'acted'"}, nil)
+					default:
+						loc, _ := drv.NewLoc("J", kind, drv.MustMem())
+						loc.SetControl(ctl)
+						var libs []string
+						for _, l := range v.libs {
+							libs = append(libs, l.(string))
+						}
+						x, err := loc.RunJavascript(drv.Ctx(), "scale(21)", libs, nil, nil)
+						if err != nil {
+							failure = err.Error()
+						} else {
+							got = fmt.Sprint(x)
+						}
+					}
+					wit := rep.J{"position": pos, "state": kind, "script": "scale(21)", "libraries": v.libs, "order": order, "step": vi, "value": got, "non_complete_nodes": failedNodes, "failure": failure}
+					want := v.want
+					if pos == "condition" && want != "" {
+						want = "acted"
+					}
+					if v.want == "" {
+						if failure == "" && failedNodes == 0 {
+							r.Violate("", "a script that calls a function of a library it was not given (or whose library does not compile) was reported as success", wit)
+						}
+						continue
+					}
+					if failure != "" || failedNodes > 0 {
+						r.Violate("", "a script that finishes within the limit failed: "+failure, wit)
+					} else if got != want {
+						r.Violate("", fmt.Sprintf("a finishing script produced %q, expected %q", got, want), wit)
+					}
+				}
+			}
+		}
+	}
+}
+
 func main() {
 	e := rep.GetEnv()
 	r := rep.New(e)
+	siblingScopes(r)
+	libraryScripts(r)
 	g := gen.New(e.BatchSeed())
 	disabled := os.Getenv("C14_TIMEOUTS") == "off"
 	if disabled {
